@@ -127,7 +127,9 @@ def _run_on_carrier(fn, finished):
 
 
 def _engine_exception(e):
-    return isinstance(e, BaseException) and not isinstance(e, (Exception, Killed))
+    # SystemExit / KeyboardInterrupt / GeneratorExit are ordinary task failures for gemseo's worker loop (it catches BaseException):
+    # only the path-steering exceptions of the engine (PathAbort, Unsupported, Budget, ...) are carried over to the main thread
+    return isinstance(e, BaseException) and not isinstance(e, (Exception, Killed, SystemExit, KeyboardInterrupt, GeneratorExit))
 
 
 class Scheduler:
